@@ -133,9 +133,9 @@ impl Check for C01 {
     }
     fn n_runs(&self, thorough: bool) -> u64 {
         if thorough {
-            150_000
+            450_000
         } else {
-            6_000
+            12_000
         }
     }
     fn gen_plan(&self, seed: u64, idx: u64, _thorough: bool) -> Value {
